@@ -56,7 +56,7 @@ TEXT = {
         "technique": "Rocq theorems over a Gallina model + differential correspondence + property oracle",
     },
     "C02": {
-        "text": "Proved: whatever a primitive field accepts ends in the domain of the round trip and packs, so the re-packed bytes are accepted again (with anything after them, into any object), give the same value and re-pack to themselves - for every coherent primitive specification that is accept_ok (decoded text is what the encoder encodes, pad character in the encoder's alphabet, maximum expressible in the prefix digits, Numeric fields with a way to restore their width); whatever a message accepts lies in the domain of the message round trip, re-packs, and the re-packed bytes decode to the same MTI, bitmap, element set and contents and re-pack to themselves, for every coherent message specification whose field specifications are accepting (all primitive fields are); every primitive data element of the five shipped specifications is accepting (sound decision procedure, re-run on every run). EBCDIC1047 text fields are refuted with a witness, a recorded finding (F26). Composites as accepting field specifications (a re-packed subfield can outgrow a tight composite maximum) are checked by the oracle on mutated encodings over generated specs only.",
+        "text": "Proved: whatever a primitive field accepts ends in the domain of the round trip and packs, so the re-packed bytes are accepted again (with anything after them, into any object), give the same value and re-pack to themselves - for every coherent primitive specification that is accept_ok (decoded text is what the encoder encodes, pad character in the encoder's alphabet, maximum expressible in the prefix digits, Numeric fields with a way to restore their width); whatever a message accepts lies in the domain of the message round trip, re-packs, and the re-packed bytes decode to the same MTI, bitmap, element set and contents and re-pack to themselves, for every coherent message specification whose field specifications are accepting (all primitive fields are); every primitive data element of the five shipped specifications is accepting (sound decision procedure, re-run on every run). For every nested specification (composites of all three modes, any depth) what a field or a message accepts, if it packs, lies in the domain, so re-encoding is a fixed point; all data elements of the shipped specifications, composites included, satisfy the condition. EBCDIC1047 text fields are refuted with a witness, a recorded finding (F26). That Pack of an accepted composite succeeds (a re-packed subfield can outgrow a tight composite maximum) is checked by the oracle on mutated encodings over generated specs only.",
         "design_ref": "DESIGN.md section 6 C02",
         "note": 'Trusted: Coq kernel, hand-written model (Model/Field.v, Model/Message.v) validated by correspondence on every run, extraction/driver, Go harness incl. the spec/value generators and the property oracle.',
         "technique": "Rocq theorems over a Gallina model + differential correspondence + property oracle",
